@@ -168,6 +168,110 @@ func runC30(c *eng.Ctx) {
 		sigs[im] = strings.Join(feats, " ")
 	}
 	c.Ob("SIB-dirty-pages", "saveToStorage twins", len(sigs) == 2 && sigs[impls[0]] == sigs[impls[1]], token.NoPos, fmt.Sprintf("the two dirty-page buffers upload pages the same way: %v", sigs))
+	// ---------------------------------------------------------------- INTERVAL twins
+	// the in-memory and the temp-file interval lists are the same algorithm over different node types: every method
+	// they share branches on the same conditions (after renaming DataOffset -> Offset)
+	rename := func(t string) string {
+		t = strings.ReplaceAll(t, "DataOffset", "Offset")
+		t = strings.ReplaceAll(t, "param:dataOffset", "param:offset")
+		t = strings.ReplaceAll(t, "Written", "")
+		return t
+	}
+	twins := [][2]string{
+		{"(*ContinuousIntervals).AddInterval", "(*WrittenContinuousIntervals).AddInterval"},
+		{"subList", "(*WrittenIntervalLinkedList).subList"},
+		{"(*ContinuousIntervals).RemoveLargestIntervalLinkedList", "(*WrittenContinuousIntervals).RemoveLargestIntervalLinkedList"},
+		{"(*ContinuousIntervals).removeList", "(*WrittenContinuousIntervals).removeList"},
+		{"(*ContinuousIntervals).ReadDataAt", "(*WrittenContinuousIntervals).ReadDataAt"},
+		{"(*IntervalLinkedList).ReadData", "(*WrittenIntervalLinkedList).ReadData"},
+	}
+	for _, tw := range twins {
+		a, b := c.NeedFunc("weed/filesys", tw[0]), c.NeedFunc("weed/filesys", tw[1])
+		if a == nil || b == nil {
+			continue
+		}
+		sa, sb := condShapes(a, rename), condShapes(b, rename)
+		onlyA, onlyB := diffStrings(sa, sb), diffStrings(sb, sa)
+		c.Ob("SIB-intervals", tw[0]+" vs "+tw[1], len(onlyA) == 0 && len(onlyB) == 0 && len(sa) > 0, a.Pos(), fmt.Sprintf("the twins branch on the same %d conditions", len(sa))+ifs(len(onlyA)+len(onlyB) > 0, fmt.Sprintf("; only in the first: %v; only in the second: %v", onlyA, onlyB)))
+	}
+	// the shortcut that appends to the tail and skips the overlap pass is taken only when there is exactly one list
+	// (with several lists the appended range may run into another list, which the overlap pass would have trimmed)
+	for _, name := range []string{"(*ContinuousIntervals).AddInterval", "(*WrittenContinuousIntervals).AddInterval"} {
+		fn := c.NeedFunc("weed/filesys", name)
+		if fn == nil {
+			continue
+		}
+		one := eng.PassEdges(fn, func(cond ssa.Value) (bool, bool) {
+			b, ok := cond.(*ssa.BinOp)
+			if !ok || (b.Op != token.EQL && b.Op != token.NEQ) {
+				return false, false
+			}
+			k, isK := eng.ConstInt(b.Y)
+			call, isCall := b.X.(*ssa.Call)
+			if !isK || k != 1 || !isCall || !eng.CalleeIs(call, "builtin.len") || !strings.HasSuffix(eng.FieldSpec(eng.Unwrap(call.Call.Args[0])), ".lists") {
+				return false, false
+			}
+			return true, b.Op == token.EQL
+		})
+		// early returns: returns reachable without passing the store that installs the rebuilt lists
+		rebuilt := eng.StoreToField(strings.TrimSuffix(strings.TrimPrefix(name, "(*"), ").AddInterval") + ".lists")
+		var early []ssa.Instruction
+		for _, r := range eng.Find(fn, eng.IsReturn) {
+			if hit, _ := eng.Search(eng.Entry(fn), eng.Is(r), eng.SearchOpt{Barrier: rebuilt}); hit != nil {
+				early = append(early, r)
+			}
+		}
+		if len(early) == 0 || len(one) == 0 {
+			c.Undecided("SIB-intervals", eng.FuncName(fn)+" shortcut", fn.Pos(), "tail shortcut / single-list test not found")
+			continue
+		}
+		c.Guard("SIB-intervals", "tail-shortcut-only-with-one-list", fn, eng.Entry(fn), early, one, "the write is appended without the overlap pass only when exactly one list exists")
+	}
+	// a node cut by a later write keeps the part [nodeStart, nodeStop): its backing position advances by what was cut
+	// from its front
+	if fn := c.NeedFunc("weed/filesys", "(*WrittenIntervalLinkedList).subList"); fn != nil {
+		var tOff, dOff, size []string
+		for _, in := range eng.Find(fn, eng.StoreToField("WrittenIntervalNode.TempOffset")) {
+			tOff = eng.LinearTerms(in.(*ssa.Store).Val)
+		}
+		for _, in := range eng.Find(fn, eng.StoreToField("WrittenIntervalNode.DataOffset")) {
+			dOff = eng.LinearTerms(in.(*ssa.Store).Val)
+		}
+		for _, in := range eng.Find(fn, eng.StoreToField("WrittenIntervalNode.Size")) {
+			size = eng.LinearTerms(in.(*ssa.Store).Val)
+		}
+		// position = old position + new start - old start ; size = stop - new start
+		want := append([]string{"+.TempOffset", "-.DataOffset"}, dOff...)
+		sort.Strings(want)
+		okSize := len(dOff) == 1 && len(size) == 2 && diffLen(size, []string{"-" + strings.TrimPrefix(dOff[0], "+")}) == 1
+		c.Ob("SIB-intervals", eng.FuncName(fn)+" cut-node-position", len(dOff) == 1 && strings.Join(tOff, " ") == strings.Join(want, " ") && okSize, fn.Pos(), fmt.Sprintf("the cut node's temp-file position is the old position plus what was cut from its front: %v (want %v)", tOff, want))
+	}
+	if fn := c.NeedFunc("weed/filesys", "subList"); fn != nil {
+		var off, size, low, high []string
+		for _, in := range eng.Find(fn, eng.StoreToField("IntervalNode.Offset")) {
+			off = eng.LinearTerms(in.(*ssa.Store).Val)
+		}
+		for _, in := range eng.Find(fn, eng.StoreToField("IntervalNode.Size")) {
+			size = eng.LinearTerms(in.(*ssa.Store).Val)
+		}
+		for _, in := range eng.Find(fn, eng.StoreToField("IntervalNode.Data")) {
+			if sl, ok := in.(*ssa.Store).Val.(*ssa.Slice); ok && eng.IsField(sl.X, "IntervalNode.Data") {
+				low, high = eng.LinearTerms(sl.Low), eng.LinearTerms(sl.High)
+			}
+		}
+		// bytes [start - old offset, stop - old offset) ; size = stop - start
+		wantLow := append([]string{"-.Offset"}, off...)
+		sort.Strings(wantLow)
+		okCut := len(off) == 1 && strings.Join(low, " ") == strings.Join(wantLow, " ") && len(high) == 2 && diffLen(high, []string{"-.Offset"}) == 1
+		if okCut {
+			stop := diffStrings(high, []string{"-.Offset"})
+			wantSize := append([]string{"-" + strings.TrimPrefix(off[0], "+")}, stop...)
+			sort.Strings(wantSize)
+			okCut = strings.Join(size, " ") == strings.Join(wantSize, " ")
+		}
+		c.Ob("SIB-intervals", eng.FuncName(fn)+" cut-node-position", okCut, fn.Pos(), fmt.Sprintf("the cut node's bytes are the old bytes from (start - old offset): low=%v high=%v offset=%v size=%v", low, high, off, size))
+	}
+	c.Expect("SIB-intervals", 10)
 	c.Expect("ASYNC-flush", 8)
 	c.Expect("ASYNC-save", 14)
 
@@ -239,3 +343,35 @@ func runC30(c *eng.Ctx) {
 	}
 	c.Expect("GUARD-commit", 8)
 }
+
+// condShapes: the multiset of branch conditions of fn, rendered as terms over field names (twins on different
+// node types compare equal after renaming their fields).
+func condShapes(fn *ssa.Function, rename func(string) string) []string {
+	var out []string
+	for _, b := range fn.Blocks {
+		if iff, ok := b.Instrs[len(b.Instrs)-1].(*ssa.If); ok {
+			out = append(out, rename(eng.ExprShape(iff.Cond)))
+		}
+	}
+	sort.Strings(out)
+	return out
+}
+
+// diffStrings: the elements of a (with multiplicity) that are not in b.
+func diffStrings(a, b []string) []string {
+	cnt := map[string]int{}
+	for _, x := range b {
+		cnt[x]++
+	}
+	var out []string
+	for _, x := range a {
+		if cnt[x] > 0 {
+			cnt[x]--
+			continue
+		}
+		out = append(out, x)
+	}
+	return out
+}
+
+func diffLen(a, b []string) int { return len(diffStrings(a, b)) }
